@@ -387,14 +387,15 @@ const (
 var evName = []string{"?", "pre", "main", "groupmw", "globalmw", "postmain"}
 
 type record struct {
-	n      int
-	ev     [16]uint8 // kind<<4 | id
-	nparam int
-	pk     [8]string
-	pv     [8]string
-	full   string
-	byName [4]string // ctx.Param(name) of the names the harness asked for
-	want   []string  // names to query at handler time
+	n       int
+	ev      [16]uint8 // kind<<4 | id
+	nparam  int
+	pk      [8]string
+	pv      [8]string
+	full    string
+	byName  [4]string // ctx.Param(name) of the names the harness asked for
+	byOther [4]string // ctx.Param of the same names in the other letter case (no pattern of the alphabet has such a parameter)
+	want    []string  // names to query at handler time
 }
 
 func (r *record) reset(want []string) {
@@ -419,8 +420,22 @@ func (r *record) capture(ctx *app.RequestContext) {
 	for i, nm := range r.want {
 		if i < len(r.byName) {
 			r.byName[i] = ctx.Param(nm)
+			r.byOther[i] = ctx.Param(swapCase(nm))
 		}
 	}
+}
+
+func swapCase(s string) string {
+	b := []byte(s)
+	for i, c := range b {
+		switch {
+		case c >= 'a' && c <= 'z':
+			b[i] = c - 32
+		case c >= 'A' && c <= 'Z':
+			b[i] = c + 32
+		}
+	}
+	return string(b)
 }
 
 func (r *record) events() string {
@@ -907,6 +922,11 @@ func (w *worker) one(bg context.Context, e *route.Engine, ctx *app.RequestContex
 			}
 			if r.byName[i] != ref.vals[first] {
 				bad("param-by-name:"+p.class, fmt.Sprintf("ctx.Param(%q)=%q", p.names[i], r.byName[i]), fmt.Sprintf("%q", ref.vals[first]))
+				break
+			}
+			// parameter names are case-sensitive: the pattern has no parameter of the other-case name
+			if i < len(r.byOther) && r.byOther[i] != "" {
+				bad("param-by-name-other-case:"+p.class, fmt.Sprintf("ctx.Param(%q)=%q", swapCase(p.names[i]), r.byOther[i]), "\"\" (the pattern has no such parameter)")
 				break
 			}
 		}
